@@ -151,7 +151,7 @@ def _chunk_worker(payload):
             except Exception:  # harness bug, never a verdict
                 out.append({"idx": idx, "harness_error":
                             traceback.format_exc()})
-                break
+                # the run is abandoned (no verdict); the chunk goes on
     finally:
         faulthandler.cancel_dump_traceback_later()
     return out
@@ -244,10 +244,11 @@ def run_batch(fn, prop, tier, root, n_runs, extra=None, chunk=20,
         launch()
     results.sort(key=lambda r: r["idx"])
     errs = [r for r in results if "harness_error" in r]
-    if errs:
+    if len(errs) > max(3, 0.005 * len(results)):
+        # more than a handful of abandoned runs: the harness is broken
         raise HarnessError(
-            f"harness error in run {errs[0]['idx']}:\n"
-            f"{errs[0]['harness_error']}")
+            f"{len(errs)} runs hit a harness exception; first, run "
+            f"{errs[0]['idx']}:\n{errs[0]['harness_error']}")
     if truncated and not results:
         raise HarnessError("wall cap hit before any run finished")
     return results, truncated
